@@ -45,7 +45,6 @@
 package interp // import "golang.org/x/tools/go/ssa/interp"
 
 import (
-	"sync"
 	"fmt"
 	"go/token"
 	"go/types"
@@ -55,6 +54,7 @@ import (
 	"runtime/debug"
 	"slices"
 	"strings"
+	"sync"
 
 	"golang.org/x/tools/go/ssa"
 )
